@@ -224,9 +224,13 @@ def gen_box(seed):
         b = rng.choice([b, b, b, None, 'inf'])
         lo.append(a)
         hi.append(b)
-    return {'family': 'boundsconstrain', 'min': lo, 'max': hi, 'seed': seed,
+    spec = {'family': 'boundsconstrain', 'min': lo, 'max': hi, 'seed': seed,
             'kwds': rng.choice([{}, {'symbolic': True}, {'symbolic': False}, {'symbolic': False, 'clip': True},
                                 {'symbolic': True, 'clip': True}])}
+    # the re-drawing mode (own generator, the other draws keep their values): into the box, and the identity inside it
+    if random.Random(seed * 5 + 3).random() < 0.2:
+        spec['kwds'] = {'symbolic': False, 'clip': False}
+    return spec
 
 
 def _f(v, default):
@@ -279,6 +283,12 @@ def check_box(spec, res, stats, nin, xs=None):
             res.violation(key + 'in-box' + tag, 'box %r %r: x=%r -> y=%r leaves the box' % (spec['min'], spec['max'], x0, y), inp)
         if was_in and y != x0:
             res.violation(key + 'identity-inside' + tag, 'box %r %r: x=%r inside but y=%r' % (spec['min'], spec['max'], x0, y), inp)
+        if spec['kwds'].get('clip', True) is False:
+            # re-drawing mode: coordinates already inside their interval are kept, the others land inside it
+            if len(y) == n and any(a <= v <= b and w != v for v, w, a, b in zip(x0, y, lo, hi)):
+                res.violation(key + 'identity-inside' + tag + '#coordinate', 'box %r %r: x=%r -> y=%r changes a coordinate that was '
+                              'inside its interval' % (spec['min'], spec['max'], x0, y), inp)
+            continue
         if len(y) == n and y != [min(max(v, a), b) for v, a, b in zip(x0, lo, hi)]:
             res.violation(key + 'clip-value' + tag, 'box %r %r: x=%r -> y=%r is not the coordinate-wise clip' % (
                 spec['min'], spec['max'], x0, y), inp)
